@@ -22,6 +22,7 @@ func init() {
 			"R11.3 job list and freshness: the configuration that is rewritten is parsed from the raw content in the same injection (never a cached, already rewritten one); the only write to Config.ScrapeConfigs is the append of one self-monitoring job under ShardMonitorEnable; no other field of config.Config is written; " +
 			"R11.4 secret restoration is complete: every config_util.Secret reachable from config.Config outside scrape_configs (by section and YAML key) must be read by the marshalling function for re-insertion from a field that still holds the secret after config.Load; " +
 			"R11.5 placeholder misplacement: secrets are re-inserted by replacing the first '<key>: <secret>' occurrences in collection order, so the collection order must follow the serialisation order of the sections and no section serialised earlier may contain a Secret under the same YAML key. " +
+			"R11.7 every accepted configuration reaches the injector: the reload callbacks run on every accepting path of ReloadFromRaw, conditional only on its error checks. " +
 			"Not decided: validity of the YAML for every configuration.",
 		Assumptions: []string{"go/types and go/ssa are correct", "config_util.Secret marshals as <secret> (reviewed in the pinned prometheus/common)",
 			"HTTPClientConfig.Validate moves bearer_token into authorization.credentials and clears it (reviewed in the pinned prometheus/common; re-derived from its SSA in the thorough tier)"}})
@@ -142,6 +143,7 @@ func runC11(p *engine.Prog, r *engine.Report) {
 	r.Min("R11.3-job-list", 2)
 	r.Min("R11.4-secret-restored", 4)
 	r.Min("R11.5-placeholder-order", 1)
+	r.Min("R11.7-applied", 1)
 
 	allowed := map[string]bool{"ServiceDiscoveryConfigs": true, "Scheme": true, "RelabelConfigs": true,
 		"HTTPClientConfig.ProxyURL": true, "HTTPClientConfig.BasicAuth": true, "HTTPClientConfig.TLSConfig": true, "HTTPClientConfig.BearerToken": true,
@@ -384,6 +386,41 @@ func runC11(p *engine.Prog, r *engine.Report) {
 				}
 			}
 		}
+	}
+
+	// ---- R11.7: every accepted configuration reaches the injector: the reload callbacks run on every path
+	// on which ReloadFromRaw accepts (returns nil), unconditionally
+	if rf := p.SSAFunc(p.Method(pkgProm, "ConfigManager", "ReloadFromRaw")); rf != nil {
+		fi := p.Info(rf)
+		fCallbacks := p.Field(pkgProm, "ConfigManager", "callbacks")
+		var hdr *ssa.BasicBlock
+		for _, in := range allInstrs(rf) {
+			if call, ok := in.(*ssa.Call); ok && !call.Call.IsInvoke() && call.Call.StaticCallee() == nil && strings.Contains(fi.T(call.Call.Value).S, "."+fCallbacks.Name()+"[") {
+				if lp := loopOf(fi, call.Block()); lp != nil {
+					hdr = lp.header
+				}
+			}
+		}
+		var probs []string
+		if hdr == nil {
+			probs = append(probs, "the reload callbacks are not invoked in ReloadFromRaw")
+		} else {
+			for _, ret := range returnsOf(rf) {
+				if isNilConst(returnedValue(ret, 0)) && !hdr.Dominates(ret.Block()) {
+					probs = append(probs, "ReloadFromRaw can accept a configuration (return nil at "+p.Rel(ret.Pos())+") without running the reload callbacks (the generated file would keep the previous configuration)")
+				}
+			}
+			for _, g := range fi.Guards(hdr) {
+				if engine.IsStructuralLiteral(g) {
+					continue
+				}
+				if strings.HasPrefix(g, "eq(") && strings.Contains(g, "nil") || strings.HasPrefix(g, "¬eq0(len(") {
+					continue // error checks and the empty-content check
+				}
+				probs = append(probs, "the callbacks run only under "+g)
+			}
+		}
+		r.Check(len(probs) == 0, "R11.7-applied", "callbacks in "+engine.FuncName(rf), engine.FuncName(rf), "every accepting path runs the reload callbacks, conditional only on the preceding error checks", strings.Join(probs, "; "))
 	}
 
 	// ---- R11.4 / R11.5
